@@ -390,6 +390,9 @@ func (r *Rig) ArmPause(addr oid.Address) {
 func (r *Rig) WaitPaused() bool {
 	select {
 	case <-r.paused:
+		// let the other flush workers finish their batches first, so that the
+		// foreground operations overlap with the parked flush only
+		synctest.Wait()
 		return true
 	case <-time.After(r.untilHalf()):
 		synctest.Wait()
@@ -400,6 +403,7 @@ func (r *Rig) WaitPaused() bool {
 		if !armed {
 			// parked in the very last moment
 			<-r.paused
+			synctest.Wait()
 			return true
 		}
 		return false
